@@ -39,6 +39,7 @@ func TestClusterSelfmon(t *testing.T) {
 		run++
 		tStart := time.Now()
 		env.WipeStore()
+		env.G.H, env.G.Free = nil, false
 		ctx := Op("setup")
 		if _, err := env.Cal.AddPod(ctx, "p1", ""); err != nil {
 			t.Fatal(err)
@@ -65,7 +66,7 @@ func TestClusterSelfmon(t *testing.T) {
 				t.Fatal(err)
 			}
 		}
-		wctx, cancel := context.WithCancel(context.Background())
+		wctx, cancel := context.WithCancel(Op("mon"))
 		watcherDone := make(chan struct{})
 		started := false
 		for _, op := range in.Ops {
@@ -93,6 +94,25 @@ func TestClusterSelfmon(t *testing.T) {
 					defer close(watcherDone)
 					selfmon.RunNodeStatusWatcher(wctx, cfg, env.Cal, t)
 				}()
+			case "startlapse":
+				// the watcher's initial scan is parked when it has looked at the first node (n1: right before it asks for the
+				// second node's status); the watch has had time to open; op.N's status is deleted; the scan goes on
+				started = true
+				h := NewHolder("mon", 0)
+				h.atLabel, h.Skip = "store.GetNodeStatus", 1
+				env.G.Free, env.G.H = true, h
+				go func() {
+					defer close(watcherDone)
+					selfmon.RunNodeStatusWatcher(wctx, cfg, env.Cal, t)
+				}()
+				select {
+				case <-h.reached:
+					time.Sleep(300 * time.Millisecond)
+				case <-time.After(5 * time.Second):
+				}
+				_ = env.Raw.SetNodeStatus(ctx, nodes[op.N], -1)
+				time.Sleep(50 * time.Millisecond)
+				close(h.release)
 			case "wait":
 				time.Sleep(800 * time.Millisecond)
 			}
